@@ -69,8 +69,8 @@ impl Engine for An {
             "C09" => "one evaluation = one generated workspace with a history of 3-24 updates / batches / removals (three removal paths) / config changes / reindexes, then reindex(), compared with a brand-new analysis of the surviving files (same order, same final config), with and without a reindex of the reference; non-trivial = history non-empty and >=2 files; distinct = distinct observation digests".into(),
             "C10" => "one evaluation = one generated workspace, optional edits, then removal of a seeded subset through the three removal paths; checked: no query result names a removed file, after reindex the observation equals a fresh analysis of the survivors, removing everything returns every index container to the empty-workspace baseline, 4 add+remove cycles hold no more state than 1; non-trivial = >=2 files and >=1 removal; distinct = distinct observation digests".into(),
             "C11" => format!("one evaluation = one generated workspace (cross-file globals with conflicting assignments, partial classes, aliases, enums, requires, cycles) registered in one fixed order through the batch path, optionally followed by a short history, executed under {} owned hash seeds on fresh threads; all canonical observations must be identical; non-trivial = >=2 files; distinct = distinct observation digests", sweep::sweep_width()),
-            "C32" => "one evaluation = 1-3 generated configuration objects over the real key space (scalars and arrays, each key spelled flat or nested at random, occasionally a key that is both a value and a prefix) loaded in order through load_configs under 16 owned hash seeds; oracle 1: identical outcome (serialized Emmyrc or panic) under every seed; oracle 2: equals an independent flatten / later-wins / append-without-duplicates reference merge; non-trivial = >=2 files or >=2 keys; distinct = distinct outcome digests".to_string(),
-            "C35" => "one evaluation = one generated workspace on disk (3-8 files declaring uniquely named classes, enums, aliases, globals, modules; some split across files, some in a library root) exported with the real run_doc_cli(json) (std library loaded) under up to 6 owned hash seeds; output bytes must be identical; the first export must list every main-workspace type exactly once and nothing from the library root or std; non-trivial = >=3 files; distinct = distinct output digests".to_string(),
+            "C32" => "one evaluation = 1-3 generated configuration objects over the key space of the real configuration type (derived from Emmyrc::default(): every boolean / integer / optional / string-array key that round-trips, plus hand-listed enum-valued and object-array keys; each key spelled flat or nested at random; sibling keys whose names share a textual prefix placed longer-first in a sixth of the cases; occasionally a key that is both a value and a prefix) loaded in order through load_configs - from files on disk, as in-memory partial configurations, or mixed - under 16 owned hash seeds; oracle 1: identical outcome (serialized Emmyrc or panic) under every seed; oracle 2: equals an independent flatten / later-wins / append-without-duplicates reference merge; non-trivial = >=2 files or >=2 keys; distinct = distinct outcome digests".to_string(),
+            "C35" => "one evaluation = one generated workspace on disk (3-8 files declaring uniquely named classes, enums, aliases, globals, modules; some split across files, some in a library root) exported with the real run_doc_cli(json) (std library loaded) under up to 6 owned hash seeds; output bytes must be identical; the first export must list every main-workspace type exactly once, every main-workspace file that ends in `return <one expression>` exactly once as a module (whatever the shape of the expression: local, table, closure, call, member access, literal, require), every global once per declaration site, and nothing from the library root or std; non-trivial = >=3 files; distinct = distinct output digests".to_string(),
             "C04" => "one evaluation = one history of 5-40 operations (set file content, remove file, change parser-relevant configuration: language level, non-standard symbols, require-like functions) on one analysis/Vfs with its shared node cache, over 1-4 files, texts drawn from lines chosen to maximise green-node sharing (near-duplicates, same token text in different roles, level-dependent tokens, doc comments vs code, CRLF); after every operation the cached tree dump, error list and tree text of every live file must equal a standalone parse with a brand-new node cache and the configuration in force when that file was set; non-trivial = >=2 content sets; distinct = distinct digests of all tree dumps".to_string(),
             "C33" => "one evaluation = one generated tree (nested dirs, init.lua, duplicate leaf names, a library root outside and/or inside the main root, optional .lua.txt extension) x requirePattern / moduleMap (three rule shapes: prefix rewrite, last-segment rewrite, whole-name rule) / strict.requirePath configuration x add/remove/re-add history (three removal paths) with mid-history lookups x ~10-60 require strings, executed under 4 sweep points (hash seeds, heap layouts); find_module answers must be identical at every point and legal by an independent resolver (exact candidates, then moduleMap, then fuzzy suffix candidates only when strict.requirePath is off; never a removed file; must resolve when a pattern selects a single-derivation file, also through a moduleMap rewrite; exact beats fuzzy); the same history without its lookup steps must end with the same answers (lookups are read-only); go-to-definition on the require string must land in the resolved file; non-trivial = >=2 files; distinct = distinct answer digests".to_string(),
             _ => String::new(),
